@@ -350,6 +350,36 @@ def run_fin(ctx, p):
         ctx._c20_indomain = False
 
 
+# weak-radiation equilibrium-diffusion shocks (P0 of a few 1e-5: cool upstream state): valid problems, the profile that the
+# constructor builds must consist of finite numbers
+RADWEAK = [dict(M0=1.2, gamma=1.4, Tref=56.4), dict(M0=1.2, gamma=1.4, Tref=56.4, Cv=1.6e12, rho0=0.75), dict(M0=1.2, gamma=1.4),
+           dict(M0=1.2, gamma=1.4, Tref=56.40737597480774, Cv=1607189443105.6794, rho0=0.7531517548157336), dict(M0=1.2, gamma=1.4, Tref=80.0, rho0=0.75)]
+
+
+def gen_radweak(rng, i, tier):
+    if i < len(RADWEAK):
+        return dict(kw=RADWEAK[i])
+    return dict(kw=dict(M0=float(choice(rng, [1.05, 1.2, 1.4])), gamma=1.4, Tref=uni(rng, 50.0, 70.0)))
+
+
+def run_radweak(ctx, p):
+    from exactpack.solvers.radshocks.nED_radshocks import ED_Solver
+    import warnings
+    with warnings.catch_warnings():
+        warnings.simplefilter("ignore")
+        s = ctx.make(ED_Solver, **p["kw"])
+    bad = 0
+    n = 0
+    for a in ("x", "Density", "Tm", "Speed", "Pressure"):
+        v = np.asarray(getattr(s, a), dtype=float)
+        bad += int((~np.isfinite(v)).sum())
+        n += v.size
+    sol = ctx.call(s, np.array([0.0]), 0.0)      # the shock position is inside every profile
+    fin = all(np.all(np.isfinite(np.asarray(sol[f], float))) for f in sol.dtype.names if sol[f].dtype.kind == "f")
+    ctx.observe("finite", "ED_Solver", bad == 0 and fin, branch="weak-radiation problem: profile and the record at the shock position are finite",
+                detail=dict(kw=p["kw"], P0=float(s.P0), non_finite_profile_values=bad, profile_values=n, record_at_shock_finite=bool(fin)))
+
+
 # hostile but valid series parameters (aspect ratios, Robin coefficients): NaN must not appear
 def gen_series(rng, i, tier):
     kind = i % 3
@@ -520,5 +550,6 @@ UNITS = [
     Unit("restriction", gen_restr, run_restr, quick=(len(FLAT) + 12) * 2, thorough=(len(FLAT) + 12) * 12, min_nontrivial=len(FLAT)),
     Unit("domain", gen_dom, run_dom, quick=96, thorough=96, min_nontrivial=80),
     Unit("finite", gen_fin, run_fin, quick=360, thorough=3600, min_nontrivial=250),
+    Unit("rad.weak", gen_radweak, run_radweak, quick=len(RADWEAK) + 3, thorough=len(RADWEAK) + 40, min_nontrivial=len(RADWEAK)),
     Unit("series", gen_series, run_series, quick=90, thorough=1800, min_nontrivial=60),
 ]
